@@ -228,6 +228,24 @@ fn gen_sweep_case(seed: u64, j: u64) -> Case {
 
 pub const HIDEG_BASE: u64 = 1 << 41;
 pub const OVER_BASE: u64 = 1 << 42;
+pub const ROWFLOOD_BASE: u64 = 1 << 43;
+
+/// Row flood: more than 2^16 distinct symbols of a small block handed over in ONE call (a receiver that
+/// buffered a whole carousel): some source symbols plus about 65 540 - 65 840 consecutive repair ESIs. The set
+/// is decodable by a wide margin; the row bookkeeping of the solver must cope with more than 65 535 rows.
+fn gen_rowflood_case(seed: u64, j: u64) -> Case {
+    let mut rng = Rng::derive(seed, 0x0214, j);
+    let K = *rng.pick(&[10usize, 16, 26, 40]);
+    let kept = rng.below(K as u64) as usize;
+    let mut src: Vec<u32> = (0..K as u32).collect();
+    rng.shuffle(&mut src);
+    let mut arrivals: Vec<u32> = src[..kept].to_vec();
+    let total = 65_540 + rng.below(300) as u32;
+    let start = if rng.chance(1, 2) { K as u32 } else { rng.range(K as u64, (1 << 24) - total as u64 - 1) as u32 };
+    arrivals.extend(start..start + total);
+    let n = arrivals.len();
+    Case { K, T: 1, threshold: *rng.pick(&[0u32, 250, u32::MAX]), data_seed: rng.next(), arrivals, batch_first: n }
+}
 
 /// Over-provisioned family: most source symbols plus (K'-K+1) + 2H + 1 ... repair symbols handed over in
 /// one call, so that the solver's second phase works on many more rows than it needs (more than H surplus
@@ -295,6 +313,9 @@ fn gen_hideg_case(seed: u64, j: u64) -> Case {
 }
 
 pub fn gen_case(seed: u64, idx: u64, kmax: usize) -> Case {
+    if idx >= ROWFLOOD_BASE {
+        return gen_rowflood_case(seed, idx - ROWFLOOD_BASE);
+    }
     if idx >= OVER_BASE {
         return gen_over_case(seed, idx - OVER_BASE);
     }
@@ -592,6 +613,19 @@ pub fn run(ctx: &Ctx) -> i32 {
         ctx.eval(1);
     });
     ctx.cov("over-provisioned_one-call_sets_(more_than_2H_surplus_rows)", J::i(n_over));
+    let n_rowflood = if ctx.args.ex("n").is_none() { ctx.args.pick(8usize, 80) } else { 1 };
+    par_for(n_rowflood, |j| {
+        if ctx.too_many_violations() {
+            return;
+        }
+        let idx = ROWFLOOD_BASE + j as u64;
+        crashlog::note(crashlog::CASE, &[ctx.seed(), idx, kmax as u64]);
+        let c = gen_case(ctx.seed(), idx, kmax);
+        let rj = case_json(ctx.seed(), idx, kmax, &c);
+        run_case(ctx, &gf, &c, rj, &st);
+        ctx.eval(1);
+    });
+    ctx.cov("row_floods_(more_than_2^16_distinct_symbols_of_a_small_block_in_one_call)", J::i(n_rowflood));
     let ev = raptorq::verif::events::read();
     ctx.cov("prefix_decisions_compared_with_rank_oracle", J::i(st.decisions.load(Relaxed)));
     ctx.cov("prefixes_below_K_asserted_None", J::i(st.below_k.load(Relaxed)));
@@ -606,7 +640,7 @@ pub fn run(ctx: &Ctx) -> i32 {
     ctx.floor("arrival_orders_with_two_or_more_consecutive_undecodable_prefixes_of_at_least_K_symbols_(stubborn_family)", st.stubborn_orders.load(Relaxed), if q { 40 } else { 0 });
     ctx.floor("prefix_decisions", st.decisions.load(Relaxed), if q { 10000 } else { 10 });
     ctx.finish(
-        "arrival sequences of distinct encoder-produced symbols aimed at the decision boundary: 0..K-1 surviving source symbols + repair ESIs (small, uniform over [K,2^24), top of range) up to exactly K symbols, then extras one by one; one third of the cases start with one batch of K+H..K+H+3 symbols (reaches the GF(2)-only attempt; sets whose binary rows are rank deficient while the full matrix has rank L are counted as fallback cases); one case in 40 floods the decoder with L..L+11 repair symbols taken from at most 6 classes of ESIs with identical LT rows (rank far below L however many arrive) before the symbols that complete the rank, or (one flood case in three) is a 'stubborn' order whose prefixes of K, K+1, .. K+m symbols (m = 1..4) are all rank deficient, built by rejection sampling with the rank oracle; K in 1..60, random Table-2 K' and K'+-1 up to kmax, uniform up to kmax, 60 000 / 1 200 000 sets of a small block (K' <= 42) made only of repair symbols of LT degree >= 4 (so that the first solver phase meets rows with r >= 4), 40 000 / 800 000 over-provisioned sets (K-1..K-3 source symbols and (K'-K+1)+2H+1.. repair symbols in one call), plus one sweep over every Table-2 row up to sweep_kmax (every 5th row above, up to sweep_kmax2) with K = K' and K = K'-1 / previous K'+1 and 1-3 lost source symbols; T 1..4; sparse threshold {0,250,inf}. After EVERY call: Some iff (all source present or rank over GF(256) of [LDPC; HDPC; LT rows of received+padding ISIs] = L) computed by the independent reference model; Some implies the right bytes. non-trivial = prefix with >= K distinct symbols and not all-source; distinct by (K, ESI set)",
+        "arrival sequences of distinct encoder-produced symbols aimed at the decision boundary: 0..K-1 surviving source symbols + repair ESIs (small, uniform over [K,2^24), top of range) up to exactly K symbols, then extras one by one; one third of the cases start with one batch of K+H..K+H+3 symbols (reaches the GF(2)-only attempt; sets whose binary rows are rank deficient while the full matrix has rank L are counted as fallback cases); one case in 40 floods the decoder with L..L+11 repair symbols taken from at most 6 classes of ESIs with identical LT rows (rank far below L however many arrive) before the symbols that complete the rank, or (one flood case in three) is a 'stubborn' order whose prefixes of K, K+1, .. K+m symbols (m = 1..4) are all rank deficient, built by rejection sampling with the rank oracle; K in 1..60, random Table-2 K' and K'+-1 up to kmax, uniform up to kmax, 60 000 / 1 200 000 sets of a small block (K' <= 42) made only of repair symbols of LT degree >= 4 (so that the first solver phase meets rows with r >= 4), 40 000 / 800 000 over-provisioned sets (K-1..K-3 source symbols and (K'-K+1)+2H+1.. repair symbols in one call), 8 / 80 row floods (more than 2^16 distinct symbols of a K <= 40 block in one call), plus one sweep over every Table-2 row up to sweep_kmax (every 5th row above, up to sweep_kmax2) with K = K' and K = K'-1 / previous K'+1 and 1-3 lost source symbols; T 1..4; sparse threshold {0,250,inf}. After EVERY call: Some iff (all source present or rank over GF(256) of [LDPC; HDPC; LT rows of received+padding ISIs] = L) computed by the independent reference model; Some implies the right bytes. non-trivial = prefix with >= K distinct symbols and not all-source; distinct by (K, ESI set)",
         &["rank oracle = harness's independent model of RFC 6330 5.3.3.3 / 5.3.5 (golden tables; GF(2) elimination on bitsets then GF(256) elimination of the HDPC residual)", "symbol payloads are those of the crate's encoder (whose RFC conformance is C04's business)"],
         vec![],
     )
